@@ -126,7 +126,11 @@ def main():
         },
         "engines": [
             {"name": "engine", "path": "engine/", "serves_properties": sorted(CHECKS.keys()),
-             "kind_free_text": "hand-written bounded exhaustive explorer: choice-tape DFS with deviation bounds (Pick/Deviate), explicit-state BFS over real objects, fault/fragmentation devices, controlled scheduler; reference models in ref/"},
+             "kind_free_text": "hand-written bounded exhaustive explorer: choice-tape DFS with deviation bounds (Pick = free choice, Deviate = costs one deviation), work stealing over goroutines, sharding across subprocesses by the first k choices, divergence detection on replay; fault/fragmentation devices; evidence, replay files, failure classes, known-findings matching"},
+            {"name": "controlled-scheduler", "path": "shim/", "serves_properties": ["C19", "C20"],
+             "kind_free_text": "stateless model checker for real Go code: shim/sched (cooperative scheduler, one controlled thread runs at a time, deadlock/horizon/panic outcomes), shim/vsync (Mutex, RWMutex, Cond, Pool, Map, WaitGroup, Once on top of it), shim/vnet (in-memory duplex pipe with short reads as deviations); injected by tools/overlaygen, which rewrites `import \"sync\"` and `go f()` in go-mc files mechanically at every run; schedfree/vnetfree give the same API on real goroutines for the separate -race pass"},
+            {"name": "reference-models", "path": "ref/", "serves_properties": sorted(CHECKS.keys()),
+             "kind_free_text": "refnbt, refsnbt, refwire, refframe, refpal, refanvil, refcfb8, refrcon, refjava: plain Go, import nothing from go-mc, each self-tested against published vectors or repository fixtures at the start of every check"},
         ],
         "checks": checks,
         "not_applicable": na,
